@@ -49,3 +49,17 @@ PROPS["C06"] = dict(
     generators=[dict(name="C06", quick=40, thorough=3000)],
     harness=["impl"],
 )
+
+PROPS["C08"] = dict(
+    modules=["Proofs.C08"],
+    theorems=[],
+    generators=[dict(name="C08", quick=400, thorough=40000)],
+    harness=["impl"],
+)
+
+PROPS["C09"] = dict(
+    modules=["Proofs.C09"],
+    theorems=[],
+    generators=[dict(name="C09", quick=400, thorough=40000)],
+    harness=["impl"],
+)
